@@ -92,7 +92,11 @@ def install(cfg):
 
     @cfg.stub(api.assume)
     def assume(interp, cond):
-        interp.ctx.add(as_bool_term(interp, cond))
+        f = as_bool_term(interp, cond)
+        if z3.is_app(f) and f.decl().kind() == z3.Z3_OP_SEQ_IN_RE:
+            interp.ctx.axiom(f)
+        else:
+            interp.ctx.add(f)
         return None
 
     @cfg.stub(api.check)
@@ -246,7 +250,15 @@ def install(cfg):
 
     @cfg.stub(api.spec_jsonc)
     def spec_jsonc(interp, v):
-        t = S.JSONc(interp.term_of(v))
+        import json as _json
+        tv = simp(interp.term_of(v))
+        try:
+            from .core import lower
+            return _json.dumps(lower(tv), ensure_ascii=True, separators=(",", ":"))
+        except Exception:
+            pass
+        t = S.JSONc(tv)
+        interp.ctx.axiom(S.is_ascii(interp.ctx, t), "json.dumps(ensure_ascii=True) is ASCII")
         return interp.mk("vstr", t)
 
     @cfg.stub(api.writes_of)
@@ -419,3 +431,25 @@ def install(cfg):
     @cfg.stub(api.known)
     def known(interp, fid):
         return fid in api.OPEN_FINDINGS
+
+    @cfg.stub(api.urlsafe_text)
+    def urlsafe_text(interp, b):
+        if is_plain(b):
+            return api.urlsafe_text(b)
+        t = interp.text_term(b)
+        cls = z3.Union(z3.Range("a", "z"), z3.Range("A", "Z"), z3.Range("0", "9"), z3.Re("-"), z3.Re("_"), z3.Re("~"))
+        return boolval(interp, z3.InRe(t, z3.Plus(cls)))
+
+    @cfg.stub(api.py_urlsafe_match)
+    def py_urlsafe_match(interp, b):
+        if is_plain(b):
+            return api.py_urlsafe_match(b)
+        t = interp.text_term(b)
+        cls = z3.Union(z3.Range("a", "z"), z3.Range("A", "Z"), z3.Range("0", "9"), z3.Re("-"), z3.Re("_"), z3.Re("~"))
+        return boolval(interp, z3.InRe(t, z3.Concat(z3.Plus(cls), z3.Option(z3.Re("\n")))))
+
+    @cfg.stub(api.ascii_only)
+    def ascii_only(interp, b):
+        if is_plain(b):
+            return api.ascii_only(b)
+        return boolval(interp, z3.InRe(interp.text_term(b), S.ASCII_RE))
